@@ -1017,7 +1017,12 @@ impl Reader {
             let mut missing_frags = this.missing_frags_for(writer_guid, sn);
             let first_missing = missing_frags.next();
             if let Some(first) = first_missing {
-              let missing_frags_set = iter::once(first).chain(missing_frags).collect(); // "undo" the .next() above
+              // "undo" the .next() above. A NackFrag can carry at most 256 fragment numbers
+              // starting from the first one, so do not collect more than that: a sample may
+              // have millions of (missing) fragments.
+              let missing_frags_set = iter::once(first)
+                .chain(missing_frags.take_while(|f| u32::from(*f) - u32::from(first) < 256))
+                .collect();
               let nf = NackFrag {
                 reader_id,
                 writer_id: writer_proxy.remote_writer_guid.entity_id,
